@@ -1,1 +1,261 @@
-/- C20 — property theorems (stub: the slice is not built yet). -/
+import GB.C20.Model
+import GB.C20.Spec
+import GB.C20.ProofsTrie
+import GB.C20.ProofsGwMain
+import GB.C20.ProofsStMain
+import GB.C20.ProofsVerb
+import GB.C20.ProofsLegalMain
+import GB.Generated.Facts
+/-
+  C20 — property theorems. Helper lemmas live in Proofs*.lean.
+-/
+open GB GB.C20
+
+/-! ### facts ties: the character tables, delimiter sets and structural facts the models use are the ones in the sources now -/
+
+def inRanges (rs : List (Nat × Nat)) (n : Nat) : Bool := rs.any (fun r => r.1 ≤ n && n ≤ r.2)
+
+set_option maxRecDepth 100000 in
+/-- `expectPChars` (gwbased): single-byte pchars are the extracted ranges plus the extracted case labels (the last label is '%'). -/
+theorem C20_facts_gw_pchar : ∀ n : Fin 256,
+    isPcharByte (UInt8.ofNat n.val) =
+      (inRanges GB.Generated.c20GwPcharRanges n.val || GB.Generated.c20GwPcharPunct.dropLast.contains n.val) := by
+  decide
+
+theorem C20_facts_gw_pct : GB.Generated.c20GwPcharPunct.getLast? = some cPct.toNat := by decide
+
+set_option maxRecDepth 100000 in
+/-- `consumePchar` (strict) -/
+theorem C20_facts_st_pchar : ∀ n : Fin 256,
+    isPcharByte (UInt8.ofNat n.val) =
+      (inRanges GB.Generated.c20StPcharRanges n.val || GB.Generated.c20StPcharPunct.contains n.val) := by
+  decide
+
+set_option maxRecDepth 100000 in
+/-- `expectIdent` / `checkIdent`: the first range (digits) is excluded at position 0; `_` is the extra case -/
+theorem C20_facts_ident : ∀ n : Fin 256,
+    (isIdentByte (UInt8.ofNat n.val) = (inRanges GB.Generated.c20GwIdentRanges n.val || n.val == 95)) ∧
+    (isIdentStart (UInt8.ofNat n.val) = (inRanges (GB.Generated.c20GwIdentRanges.drop 1) n.val || n.val == 95)) ∧
+    GB.Generated.c20StIdentRanges = GB.Generated.c20GwIdentRanges := by
+  decide
+
+set_option maxRecDepth 100000 in
+theorem C20_facts_hex : ∀ n : Fin 256,
+    isHexDigit (UInt8.ofNat n.val) = inRanges GB.Generated.c20GwHexRanges n.val ∧
+    GB.Generated.c20StHexRanges = GB.Generated.c20GwHexRanges := by
+  decide
+
+/-- delimiter sets of the tokenizer states (init, field, nested), both packages -/
+theorem C20_facts_delims :
+    GB.Generated.c20GwDelims = ["/{", ".=}", "/}"] ∧
+    GB.Generated.c20StDelims = ["tsegment=/{", "tvariable=.=}", "tnested=/}"] := by
+  decide
+
+set_option maxRecDepth 100000 in
+theorem C20_facts_delims_model : ∀ n : Fin 256,
+    isDelim .seg (UInt8.ofNat n.val) = [47, 123].contains n.val ∧
+    isDelim .fld (UInt8.ofNat n.val) = [46, 61, 125].contains n.val ∧
+    isDelim .nest (UInt8.ofNat n.val) = [47, 125].contains n.val := by
+  decide
+
+theorem C20_facts_eof :
+    GB.Generated.c20GwEof = eofTok.map UInt8.toNat ∧ GB.Generated.c20StEof = eofTok.map UInt8.toNat := by
+  decide
+
+/-- the three repairs the models assume are present in the sources -/
+theorem C20_facts_fixes :
+    GB.Generated.c20GwParseChecksNul = true ∧ GB.Generated.c20StParseChecksNul = true ∧
+    GB.Generated.c20GwParseChecksVerb = true ∧ GB.Generated.c20GwParseExactSlash = true := by
+  decide
+
+/-! ### the grammar recogniser used as the oracle of the correspondence run -/
+
+/-- A `some` answer of the recogniser is a derivation (with that abstract syntax): the oracle never
+    calls a string derivable that is not. (The converse — the recogniser finds every derivation — is
+    not proved; it is exercised on every enumerated derivation of the run, where a miss would show up
+    as a violation on the unchanged tree.) -/
+theorem C20_recogniser_sound (s : Bytes) (t : Tmpl) (h : specParse s = some t) : Derives s t := by
+  unfold specParse specParseWith at h
+  cases hc : specCandidate s with
+  | none => simp [hc] at h
+  | some t' =>
+    simp only [hc] at h
+    by_cases hw : (t'.wfB false && t'.render == s) = true
+    · simp only [hw, if_true, Option.some.injEq] at h
+      subst h
+      simp only [Bool.and_eq_true, beq_iff_eq] at hw
+      exact ⟨hw.1, hw.2⟩
+    · simp [hw] at h
+
+/-! ### tokenizer (both packages), over arbitrary byte strings -/
+
+/-- the tokens are a partition of the input: nothing is dropped, reordered or invented -/
+theorem C20_tokens_concat (s : Bytes) : (tokCore .seg [] s).flatten = s := by
+  simpa using tokCore_concat s .seg []
+
+/-- no token is empty (the strict parser's `checkIdent` / `checkLiteral` rely on it) -/
+theorem C20_tokens_nonempty (s : Bytes) : ∀ t ∈ tokCore .seg [] s, t ≠ [] :=
+  tokCore_nonempty s .seg []
+
+/-! ### gwbased parser (the one routing uses) -/
+
+/-- **Completeness, with the verb and field paths of the grammar.** Every string the grammar derives is
+    accepted by `Parse`; the template it returns has the verb the grammar assigns, `Compile()` reports
+    exactly the grammar's field paths (in order), and its segments are the grammar's (`gwSegsOf`: the
+    root template is the literal eof token, as in the Go code). -/
+theorem C20_gw_complete (s : Bytes) (t : Tmpl) (h : Derives s t) :
+    ∃ g, gwParse s = .ok g ∧ g.verb = t.verbStr ∧ g.compile.verb = t.verbStr ∧
+      g.compile.fields = t.fields ∧ g.segs = gwSegsOf t ∧ g.tmpl = s := by
+  obtain ⟨hw, hr⟩ := h
+  obtain ⟨g, h1, h2, h3, h4⟩ := gwParse_render false t hw
+  rw [hr] at h1 h4
+  exact ⟨g, h1, h3, by simp [GwTemplate.compile, h3], gw_fields false t hw g h2, h2, h4⟩
+
+/-- The same for the relaxed grammar (`**` anywhere): gwbased does not restrict the position of `**`. -/
+theorem C20_gw_complete_relaxed (s : Bytes) (t : Tmpl) (h : DerivesRelaxed s t) :
+    ∃ g, gwParse s = .ok g ∧ g.verb = t.verbStr ∧ g.compile.fields = t.fields ∧ g.segs = gwSegsOf t := by
+  obtain ⟨hw, hr⟩ := h
+  obtain ⟨g, h1, h2, h3, h4⟩ := gwParse_render true t hw
+  rw [hr] at h1
+  exact ⟨g, h1, h3, gw_fields true t hw g h2, h2⟩
+
+/-- the hypothesis of `C20_gw_complete` is satisfiable: `/v1/{name=a/*}:get` with its derivation -/
+example : Derives [47, 118, 49, 47, 123, 110, 97, 109, 101, 61, 97, 47, 42, 125, 58, 103, 101, 116]
+    { segs := [.lit [118, 49], .var [[110, 97, 109, 101]] (some [.lit [97], .wild])], verb := some [103, 101, 116] } := by
+  constructor
+  · show Tmpl.wfB false _ = true
+    decide
+  · decide
+
+/-
+  Full statement of the rejection clause (DESIGN 5.20):
+    C20_gw_rejects : noLeadingSlash s ∨ illegalChar s ∨ badPercent s ∨ badBraces s ∨ badFieldPath s ∨ emptySegment s
+                       → ∀ g, gwParse s ≠ .ok g
+  Proved below: no leading slash, NUL, illegal path characters (any byte outside the template alphabet,
+  anywhere in the string, the verb included — D22). The remaining classes (ill-formed percent-escape,
+  unbalanced / nested variables, bad field paths, empty segments) need the converse of
+  `C20_gw_complete_relaxed` (gwParse s = .ok g → ∃ t, DerivesRelaxed s t), which is not proved: it needs the
+  tokenizer/parser state synchronisation argument behind "variable inside variable is not possible thanks to
+  tokenize". They are checked on every run against the recogniser for all strings of length ≤ 5 over
+  {/ { } = . * : a %}, every single-edit mutation of sampled derivations, a byte sweep and random strings
+  (driver verdict VIOL), and `C20_gw_legacy_accept_fails` pins the D19 witnesses on the model.
+-/
+theorem C20_gw_rejects_partial (s : Bytes)
+    (h : noLeadingSlash s = true ∨ (0 : UInt8) ∈ s ∨ illegalChar s = true) : ∀ g, gwParse s ≠ .ok g := by
+  intro g hg
+  rcases h with h | h | h
+  · unfold gwParse gwParseWith at hg
+    cases s with
+    | nil => simp at hg
+    | cons c body =>
+      have hc : (c != cSlash) = true := by simpa [noLeadingSlash] using h
+      simp [hc] at hg
+  · unfold gwParse gwParseWith at hg
+    cases s with
+    | nil => simp at hg
+    | cons c body =>
+      simp only at hg
+      by_cases hc : (c != cSlash) = true
+      · simp [hc] at hg
+      · have : (c :: body).contains 0 = true := by simpa using h
+        simp only [hc, Bool.false_eq_true, if_false, this, if_true] at hg
+        exact absurd hg (by simp)
+  · have := gwParse_legal s g hg
+    rw [this] at h
+    exact absurd h (by simp)
+
+/-- the hypotheses are satisfiable: "/a:b c" (a space in the verb) is such a string, and was accepted before D22 -/
+example : illegalChar [47, 97, 58, 98, 32, 99] = true := by decide
+
+/-! ### strict parser -/
+
+/-
+  Full statement:  C20_strict_exact : (∃ T, stParse s = .ok T) ↔ (∃ t, Derives s t)
+  Proved: the direction ⇐ (every string of the grammar is accepted, with the grammar's verb).
+  Missing: ⇒ (acceptance implies derivability); same missing argument as for gwbased. The run checks it
+  on every case line (`st`): the implementation and the model must reject whatever the recogniser rejects.
+-/
+theorem C20_strict_exact_partial (s : Bytes) (t : Tmpl) (h : Derives s t) :
+    ∃ T, stParse s = .ok T ∧ T.verb = t.verbStr ∧ T.tmpl = s := by
+  obtain ⟨hw, hr⟩ := h
+  obtain ⟨T, h1, h2, h3⟩ := stParse_render t hw
+  rw [hr] at h1 h3
+  exact ⟨T, h1, h2, h3⟩
+
+/-- the strict parser rejects what has no leading slash or contains the in-band eof byte -/
+theorem C20_strict_rejects_partial (s : Bytes) (h : noLeadingSlash s = true ∨ (0 : UInt8) ∈ s) :
+    stParse s = .error .reject := by
+  unfold stParse
+  cases s with
+  | nil => rfl
+  | cons c body =>
+    simp only
+    by_cases hc : (c != cSlash) = true
+    · simp [hc]
+    · simp only [hc, Bool.false_eq_true, if_false]
+      rcases h with h | h
+      · simp [noLeadingSlash] at h hc; exact absurd hc h
+      · have : (c :: body).contains 0 = true := by simpa using h
+        simp only [this, if_true]
+
+/-- D23: an empty last segment before a verb is rejected by the repaired parser ("/a/:v"), as "/a/" is -/
+theorem C20_strict_empty_last_segment :
+    (stParse [47, 97, 47, 58, 118]).toOption.isNone = true ∧ (stParse [47, 97, 47]).toOption.isNone = true ∧
+    (stParse [47, 58, 118]).toOption.map (·.dump) = some [76, 40, 41, 124, 118, 101, 114, 98, 61, 118] := by
+  decide
+
+/-- the verb of a template the strict parser returns never contains "/" -/
+theorem C20_strict_verb_noslash (s : Bytes) (T : StTemplate) (h : stParse s = .ok T) : cSlash ∉ T.verb :=
+  stParse_verb_noslash s T h
+
+/-! ### trie -/
+
+/-- **Trie soundness.** Whatever `Find` may return (for every iteration order of the `verbs` map) is
+    a template that was added under the looked-up method and that matches the looked-up path:
+    the path's components are matched one to one by the template's keys (`*` any component, `**` all
+    remaining ones, a literal itself), with `":" ++ verb` at the very end. The hypothesis (no "/" in a
+    verb) holds for every template the strict parser returns (`C20_strict_verb_noslash`). -/
+theorem C20_trie_sound (t : Trie) (hv : ∀ e ∈ t, cSlash ∉ e.verb) (m p : Bytes) (e : Entry)
+    (h : e ∈ t.find m p) :
+    e ∈ t ∧ e.method = m ∧
+      Matches (e.keys.map Key.mkey) e.verb (splitOnByte cSlash (trimLeadingSlash p)) :=
+  find_sound t hv m p e h
+
+/-- `C20_trie_sound` for a trie filled with templates the strict parser returned (no hypothesis left). -/
+theorem C20_trie_sound_parsed (t : Trie)
+    (hp : ∀ e ∈ t, ∃ s T, stParse s = .ok T ∧ e.verb = T.verb) (m p : Bytes) (e : Entry) (h : e ∈ t.find m p) :
+    e ∈ t ∧ e.method = m ∧ Matches (e.keys.map Key.mkey) e.verb (splitOnByte cSlash (trimLeadingSlash p)) := by
+  refine find_sound t ?_ m p e h
+  intro e he
+  obtain ⟨s, T, hs, hv⟩ := hp e he
+  rw [hv]
+  exact stParse_verb_noslash s T hs
+
+/-- Why D20 needed a repair: with the old `dfsLeaf` (suffix test even after a literal match, i.e. `wild`
+    always true) the trie holding `/a:v:v` answers `/a:v` with it, which does not match. -/
+theorem C20_trie_old_leaf_fails :
+    let e : Entry := { method := [], keys := [.lit [97, 58, 118]], verb := [118], tmpl := [47, 97, 58, 118, 58, 118] }
+    e ∈ dfsLeaf [e] [.lit [97, 58, 118]] [97, 58, 118] true ∧
+    ¬ Matches (e.keys.map Key.mkey) e.verb [[97, 58, 118]] := by
+  refine ⟨by decide, ?_⟩
+  intro ⟨cs, h1, h2⟩
+  cases cs with
+  | nil => simp [addVerb] at h2
+  | cons c cs =>
+    cases cs with
+    | nil =>
+      simp [addVerb] at h2
+      simp [Key.mkey, matchKeys] at h1
+      rw [← h1] at h2
+      simp at h2
+    | cons d r => simp [addVerb] at h2; cases r <;> simp [addVerb] at h2
+
+/-! ### gwbased: legacy `accept` clause (kept in the code for the token-level unit test, disabled by `Parse`) -/
+
+/-- With the legacy clause `t != string(term) && t != "/"` the template "//" is the route "/*" (D19). -/
+theorem C20_gw_legacy_accept_fails :
+    ((gwParseWith false [47, 47]).toOption.map (·.str)) = some [47, 42] ∧
+    ((gwParseWith false [47, 123, 97, 61, 47, 125]).toOption.map (·.str)) = some [47, 123, 97, 61, 42, 125] ∧
+    (gwParse [47, 47]).toOption.isNone = true ∧
+    (gwParse [47, 123, 97, 61, 47, 125]).toOption.isNone = true := by
+  decide
